@@ -51,22 +51,22 @@ package sourcerunner
 //@   nosafety
 //@   atcall HandleEvent: recv_ == op && arg0 == request
 
-// (A full batch is handed over by Flush, which WAITS for the operator's sender: HandleEvent takes
-// no batch out of the batcher itself and sends nothing itself - a batch taken for a hand-over that
-// may not happen is lost.)
+// (A full batch is handed over by a send that WAITS for the operator's sender, never by an offer in
+// a select: Go evaluates the operand of a send case - the Flush that takes the batch out of the
+// batcher - whether or not the offer is then accepted, so a declined offer loses the batch.)
 //@ func batchingOperator.HandleEvent
 //@   property C04
 //@   nosafety
 //@   atcall Add: same(recv_, o.batcher) && arg0 == event
 //@   ensures called(Add)
-//@   atcall send:batches: false
-//@   atcall Flush: same(recv_, o)
+//@   atcall trysend:batches: false
 
 //@ func batchingOperator.Flush
 //@   property C04
 //@   nosafety
 //@   atcall Flush: same(recv_, o.batcher) && arg0 == batching.CurrentBatch
 //@   ensures called("send:batches")
+//@   atcall trysend:batches: false
 
 // The sender goroutine of an operator: a timed-out batch is taken under its own token (a stale
 // token takes nothing), a full batch is the one handed over; both go to this operator.
